@@ -89,8 +89,10 @@ def coq_trace(r):
         if e["k"] == "close":
             closes.setdefault((e["p"], e["i"]), e)
     effs = []
+    struct = []
     for idx, e in enumerate(events):
         p = P(e["p"])
+        struct.append((e["k"], p, P(e["src"]) if e["k"] == "rename" else None, kind_of(e["p"])))
         if e["k"] == "create":
             nxt = next((c for c in events[idx + 1:] if c["k"] == "close" and c["p"] == e["p"]), {})
             if kind_of(e["p"]) == "KShard":
@@ -116,7 +118,42 @@ def coq_trace(r):
             kinds[k].append(pid)
     d0 = "fun p => " + " ".join(f"if p =? {pid} then Some {{| closed := true; fbody := {b} |}} else" for pid, b in files) + " None"
     kf = f"fun p => if existsb (Nat.eqb p) {common.clist(kinds['KMeta'])} then KMeta else if existsb (Nat.eqb p) {common.clist(kinds['KShard'])} then KShard else KTmp"
+    coq_trace.last_struct = (struct, effs)
     return d0, kf, effs
+
+
+def pubs_of(struct, effs):
+    """Parse the effect trace into publications (new shard file; metadata file replaced through a temporary; mkdir).
+    Returns the Coq list of publications, or None when the trace is not such a sequence."""
+    pubs, i = [], 0
+    while i < len(struct):
+        k, p, src, kind = struct[i]
+        if k == "mkdir":
+            pubs.append("PMkdir")
+            i += 1
+            continue
+        if k != "create":
+            return None
+        body = effs[i][len(f"Create {p} "):]            # "(BShard h)" / "(BDoc {...})"
+        j, writes = i + 1, 0
+        while j < len(struct) and struct[j][0] == "write" and struct[j][1] == p:
+            writes += 1
+            j += 1
+        if j >= len(struct) or struct[j][0] != "close" or struct[j][1] != p:
+            return None
+        j += 1
+        if kind == "KTmp":
+            if j >= len(struct) or struct[j][0] != "rename" or struct[j][2] != p:
+                return None
+            q = struct[j][1]
+            pubs.append(f"PDoc {p} {q} {body[len('(BDoc '):-1]} {writes}")
+            j += 1
+        elif kind == "KShard":
+            pubs.append(f"PShard {p} {body[len('(BShard '):-1]} {writes}")
+        else:
+            return None
+        i = j
+    return pubs
 
 
 def run(ctx):
@@ -155,12 +192,12 @@ def run(ctx):
                 ctx.report(f"{sig}", f"{job['session']['kind']} session on {job['format']}: {where}: {p}", {"job": job, "crash_point": c["point"], "torn": c["torn"], "event": c["event"]})
                 break
     # tie: the recorded traces satisfy the discipline the theorems are about (evaluated by coqc)
-    ndisc, dis = 0, 0
+    ndisc, dis, npub, notpub = 0, 0, 0, []
     try:
-        rc, log = common.coq_make(["Model/Crash.vo"])
+        rc, log = common.coq_make(["Model/Crash.vo", "Proofs/PublishProofs.vo"])
         if rc:
             raise Broken("Model/Crash.v no longer compiles", log[-2000:])
-        body = ["Require Import Sedpack.Model.Base Sedpack.Model.Crash.",
+        body = ["Require Import Sedpack.Model.Base Sedpack.Model.Crash Sedpack.Proofs.PublishProofs.",
                 "Fixpoint first_bad (k : path -> kind) (d : disk) (tr : list eff) (i : nat) : nat :=",
                 "  match tr with [] => 0 | e :: t => if step_ok k d e then first_bad k (apply_eff d e) t (S i) else S i end."]
         todo = []
@@ -168,11 +205,19 @@ def run(ctx):
             if "events" not in r:
                 continue
             d0, kf, effs = coq_trace(r)
-            todo.append((job, r))
-            body.append(f"Eval vm_compute in (discipline ({kf}) ({d0}) [{'; '.join(effs)}], first_bad ({kf}) ({d0}) [{'; '.join(effs)}] 0).")
+            pubs = pubs_of(*coq_trace.last_struct)
+            todo.append((job, r, pubs is not None))
+            pl = "[" + "; ".join(pubs) + "]" if pubs is not None else "[]"
+            body.append(f"Eval vm_compute in (discipline ({kf}) ({d0}) [{'; '.join(effs)}], first_bad ({kf}) ({d0}) [{'; '.join(effs)}] 0, pubs_ok ({kf}) ({d0}) {pl}, "
+                        f"length (flat_map compile {pl})).")
         ans = common.coq_answers(common.coq_eval(PID, "discipline", "\n".join(body) + "\n"))
-        for (job, r), (ok, bad) in zip(todo, ans):
+        for (job, r, parsed), (ok, bad, pok, plen) in zip(todo, ans):
             ndisc += 1
+            if parsed and pok and plen == len(r["events"]):
+                npub += 1
+            elif ok:
+                # the trace obeys the discipline but is not a sequence of publications in the sense of the bridge theorem: say so in the evidence
+                notpub.append({"session": job["session"]["kind"], "format": job["format"], "parsed": parsed, "pubs_ok": bool(pok)})
             if not ok:
                 dis += 1
                 ev = r["events"][bad - 1] if 0 < bad <= len(r["events"]) else {}
@@ -200,6 +245,7 @@ def run(ctx):
                 "(all renames/closes and the effects after them, plus a sample; every k in the thorough tier) and in the middle of write calls; the real directory is then audited: every metadata file a complete valid document, "
                 "reopen + iterate return all committed examples and only written ones, reachable shards match their checksums",
         "crash_points": npoints, "event_kinds": kinds, "traces_checked_against_discipline": ndisc, "discipline_violations": dis,
+        "traces_that_are_publication_sequences_with_pubs_ok": npub, "traces_not_publication_sequences": notpub[:5],
         "traces_validated_against_impl": ndisc - dis,
     })
     ctx.assumptions += ["process crash, operating system stays up", "atomic rename"]
